@@ -55,6 +55,34 @@ def step(cells, state, sent):
     return outs
 
 
+def initial_state(ctx, chk, cfg):
+    """the state `AisParser::new()` (and `Default`) builds must be the one the exploration starts
+    from: no sequence id, fragment number 0, empty buffer"""
+    from ..interp import Interp, St, OPTION, lin_of
+    from ..values import VAdt, VInt, VSeq, VList
+    from .. import xform
+    f = ctx.facts(cfg)
+    roots = [b for b in f.bodies.values() if (b.get("impl_self") or "").endswith("AisParser") and (b["def"].endswith("::new") or b["def"].endswith("::default")) and b["arg_count"] == 0]
+    chk.ob(len(roots) >= 1, "C06/initial/no-constructor", "no constructor of AisParser found [%s]" % cfg)
+    for b in roots:
+        I = Interp(f, xform.EXT)
+        outs = I.exec_fn(St(), b, [])
+        for st, v in outs:
+            ok = isinstance(v, VAdt) and len(v.fields) == 3
+            desc = repr(v)
+            if ok:
+                adt = f.adts[v.adt]["variants"][0]["fields"]
+                byname = {fd["name"]: x for fd, x in zip(adt, v.fields)}
+                mid, fn, data = byname.get("message_id"), byname.get("fragment_number"), byname.get("data")
+                ok = isinstance(mid, VAdt) and mid.adt == OPTION and mid.variant == 0 \
+                    and isinstance(fn, VInt) and lin_of(st, fn).is_const() and lin_of(st, fn).c == 0 \
+                    and ((isinstance(data, VSeq) and data.term == ("empty",)) or (isinstance(data, VList) and not data.items))
+                desc = "message_id=%r fragment_number=%r data=%r" % (mid, fn, data)
+            chk.ob(ok, "C06/initial/%s/%s" % (b["def"].rsplit("::", 1)[-1], desc if not ok else "ok"),
+                   "%s [%s] builds %s; a new parser must have no sequence id, fragment number 0 and an empty buffer" % (b["def"], cfg, desc),
+                   sample={"constructor": b["def"], "initial_state": "(None, 0, [])"})
+
+
 def explore(chk, cfg, cells):
     ids = [None, 0, 1]
     sents = [(n, k, i) for n in (1, 2, 3, 4) for k in range(1, n + 1) for i in ids]
@@ -133,6 +161,7 @@ def run(ctx, chk):
         # representative shape groups (with and without a sequence id), which is what a stream mixes
         with_id = [cs for k, cs in groups.items() if cs[0].atoms["idv"] is not None]
         without = [cs for k, cs in groups.items() if cs[0].atoms["idv"] is None]
+        initial_state(ctx, chk, cfg)
         chk.ob(bool(with_id) and bool(without), "C06/explore/shapes", "missing grammar shapes with/without sequence id [%s]" % cfg)
         if with_id and without:
             # one representative group per distinct transition relation
